@@ -110,7 +110,7 @@ fn generate(rng: &mut Rng) -> C17Sc {
             seed: rng.next_u64(),
             // a third of the runs go through the application entry point: passage::start(config), stopped
             // by the (simulated) interrupt signal it listens for
-            cfg: NetCfg { secret: None, expiry: None, max_frame: None, timeout_ns: secs(timeout_s), proxy, limiter: None, use_start, agones: use_start && rng.chance(1, 3) },
+            cfg: NetCfg { secret: None, expiry: None, max_frame: None, timeout_ns: secs(timeout_s), proxy, limiter: None, use_start, agones: use_start && rng.chance(1, 3), secret_source: None },
             wall: Default::default(),
             services,
             clients,
